@@ -31,10 +31,10 @@ class SdoServer(SdoBase):
         self.last_received_error = 0x00000000
 
     def on_request(self, can_id, data, timestamp):
-        command, = struct.unpack_from("B", data, 0)
-        ccs = command & 0xE0
-
         try:
+            command, = struct.unpack_from("B", data, 0)
+            ccs = command & 0xE0
+
             if ccs == REQUEST_UPLOAD:
                 self.init_upload(data)
             elif ccs == REQUEST_SEGMENT_UPLOAD:
@@ -125,6 +125,8 @@ class SdoServer(SdoBase):
         _, index, subindex, code = struct.unpack_from("<BHBL", data)
         self.last_received_error = code
         logger.info("Received request aborted for 0x%04X:%02X with code 0x%X", index, subindex, code)
+        # The client has given up: the transfer in progress is over
+        self._transfer = None
 
     def block_download(self, data):
         # We currently don't support BLOCK DOWNLOAD
@@ -199,6 +201,9 @@ class SdoServer(SdoBase):
         """Abort current transfer."""
         if index is None:
             index, subindex = self._index, self._subindex
+            # An abort ends the transfer in progress, later segments of it
+            # are refused
+            self._transfer = None
         data = struct.pack("<BHBL", RESPONSE_ABORTED,
                            index, subindex, abort_code)
         self.send_response(data)
